@@ -881,6 +881,66 @@ def fn_parts(toks):
             'body_end': match_close(toks, body), 'gen_start': fn_kw + 2, 'gen_end': lp}
 
 
+def rename_param(toks, index, want, log):
+    """R17: alpha-renaming of the index-th parameter (1-based, `self` not counted) of a fn item to `want`.
+    Contracts name parameters; a parameter renamed in the source (e.g. to `_x`) must not lose the contract."""
+    p = fn_parts(toks)
+    # split the parameter list at top-level commas
+    params = []
+    cur = []
+    i = p['lp'] + 1
+    while i < p['rp']:
+        t = toks[i]
+        if t.text in OPEN:
+            j = match_close(toks, i)
+            cur.extend(range(i, j + 1))
+            i = j + 1
+            continue
+        if t.text == '<':
+            # generic arguments in a type: skip to the matching '>'
+            depth = 0
+            j = i
+            while j < p['rp']:
+                if toks[j].text == '<':
+                    depth += 1
+                elif toks[j].text == '>':
+                    depth -= 1
+                    if depth == 0:
+                        break
+                j += 1
+            cur.extend(range(i, j + 1))
+            i = j + 1
+            continue
+        if t.text == ',':
+            if cur:
+                params.append(cur)
+            cur = []
+        else:
+            cur.append(i)
+        i += 1
+    if cur:
+        params.append(cur)
+    params = [q for q in params if not any(toks[x].text == 'self' for x in q[:3])]
+    if index < 1 or index > len(params):
+        raise Maintenance('R17: fn %s has %d parameter(s), no parameter %d' % (p['name'], len(params), index))
+    q = params[index - 1]
+    k = 0
+    while k < len(q) and toks[q[k]].text in ('mut', 'ref'):
+        k += 1
+    if k + 1 >= len(q) or toks[q[k]].kind != 'ident' or toks[q[k + 1]].text != ':':
+        raise Maintenance('R17: parameter %d of fn %s is not a plain `name: Type`' % (index, p['name']))
+    have = toks[q[k]].text
+    if have == want:
+        return toks
+    if any(t.kind == 'ident' and t.text == want for t in toks):
+        raise Maintenance('R17: cannot rename parameter `%s` to `%s`: the name is already used in fn %s' % (have, want, p['name']))
+    for t in toks:
+        if t.kind == 'ident' and t.text == have:
+            t.text = want
+    log.append(('R17', toks[q[k]].file, toks[q[k]].line, 'parameter %d `%s` renamed to `%s`' % (index, have, want)))
+    return toks
+
+
 LOOP_KW = ('for', 'while', 'loop')
 
 
